@@ -180,6 +180,17 @@ impl Context
 
             Err(e) if e.kind() == std::io::ErrorKind::NotFound => Ok(None),
 
+            /* Not text at all: the same as any other lock file that can't be parsed. */
+            Err(e) if e.kind() == std::io::ErrorKind::InvalidData =>
+            {
+                log::warn!(
+                    "[ref: 31] Failed to parse lock file {}: {}",
+                    Context::CACHE_FILENAME,
+                    e
+                );
+                Ok(None)
+            },
+
             /* The lock file may well exist, so the IDs it protects are unknown: recalculating
              * the next reference from the code could hand out an ID that was used before.
              */
